@@ -637,17 +637,22 @@ fn main_random(args: &[String]) {
                             run.step();
                         }
                     }
-                    if rng.random_bool(0.7) {
-                        run.crash(h);
-                    } else {
-                        run.bounce(h);
+                    let again = rng.random_bool(0.7);
+                    if !run.dead {
+                        if again {
+                            run.crash(h);
+                        } else {
+                            run.bounce(h);
+                        }
                     }
                     for _ in 0..rng.random_range(0..=2) {
                         if !run.dead {
                             run.step();
                         }
                     }
-                    run.bounce(h);
+                    if !run.dead {
+                        run.bounce(h);
+                    }
                 } else if x < 45 && !hosts.is_empty() {
                     let h = hosts[rng.random_range(0..hosts.len())];
                     run.bounce(h);
